@@ -17,6 +17,7 @@ static std::string g_case;
 
 struct Fault { int code, buf; };
 static std::map<long, Fault> g_sched; static long g_conv = 0; static bool g_hit = false; static bool g_enabled = false; static long g_total_conv = 0;
+static int g_real_rc = 0; static long g_real_n = 0;   // return code of the most recent conversion the real library made, and how many it made
 
 extern "C" int vfault_to_ascii_8z(const char *in, char **out, int flags) {
     g_total_conv++;
@@ -29,7 +30,8 @@ extern "C" int vfault_to_ascii_8z(const char *in, char **out, int flags) {
             return it->second.code;
         }
     }
-    return idn2_to_ascii_8z(in, out, flags);
+    g_real_rc = idn2_to_ascii_8z(in, out, flags); g_real_n++;
+    return g_real_rc;
 }
 
 static const int CODES[] = {IDN2_MALLOC, IDN2_NO_CODESET, IDN2_ICONV_FAIL, IDN2_ENCODING_ERROR, IDN2_NFC, IDN2_PUNYCODE_BAD_INPUT, IDN2_PUNYCODE_BIG_OUTPUT, IDN2_PUNYCODE_OVERFLOW,
@@ -42,16 +44,18 @@ static std::string mklong(size_t n, const char *unit) { std::string s = "a@"; wh
 static const std::string L1 = mklong(1017, "a"), L2 = mklong(1018, "a"), L3 = mklong(1494, "b"), L4 = mklong(4994, "c"), L5 = mklong(1400, "\xD0\xB6");
 static const char *LONG1023 = L1.c_str(), *LONG1024 = L2.c_str(), *LONG1500 = L3.c_str(), *LONG5000 = L4.c_str(), *LONGCYR = L5.c_str();
 static const char *POOL[] = {"\xD0\xB8\xD0\xB2\xD0\xB0\xD0\xBD@\xD0\xBF\xD0\xBE\xD1\x87\xD1\x82\xD0\xB0.\xD1\x80\xD1\x84", "user@example.com", "a@sub.domain.org", "x@\xE5\xBE\xAE\xE5\x8D\x9A.\xE5\xBE\xAE\xE5\x8D\x9A",
-    "bad@\xE2\x99\xA5.de", "a@[1.2.3.4]", "a..b@c.com", "a@b", "a@x.zzunlisted", "a@-b.com", "\"q q\"@mail.ru", "a@[IPv6:::1]", "a@xn--p1ai.xn--p1ai", "a@b.abarth", "noat", "\xFF@b.com", "x@a\xE2\x80\x8C" "b.example.com", "x@\xD9\x86\xD8\xA7\xD9\x85\xD9\x87\xE2\x80\x8C\xD8\xA7\xDB\x8C.com", "x@a\xE2\x80\x8D" "b.com", LONG1023, LONG1024, LONG1500, LONG5000, LONGCYR};
+    "bad@\xE2\x99\xA5.de", "a@[1.2.3.4]", "a..b@c.com", "a@b", "a@x.zzunlisted", "a@-b.com", "\"q q\"@mail.ru", "a@[IPv6:::1]", "a@xn--p1ai.xn--p1ai", "a@b.abarth", "noat", "\xFF@b.com", "user@ab--cd.com", "u@r3---sn-abc.example.org", "u@xn--abc-.example.com", "x@a\xE2\x80\x8C" "b.example.com", "x@\xD9\x86\xD8\xA7\xD9\x85\xD9\x87\xE2\x80\x8C\xD8\xA7\xDB\x8C.com", "x@a\xE2\x80\x8D" "b.com", LONG1023, LONG1024, LONG1500, LONG5000, LONGCYR};
 static const int NPOOL = sizeof POOL / sizeof POOL[0];
 
-struct Step { int mode, tld, addr; };
+// allow: index into MASKS (-1 = leave the eav_init default); bits 0 and 1 are not class bits and must not matter
+static const int MASKS[] = {0x7ff, 0x7fe, 0x002, 0x7fd, 0x001};
+struct Step { int mode, tld, addr, allow = -1; };
 struct RunSpec { std::vector<Step> steps; std::map<long, Fault> faults; };
 
 static int g_build = 0;
 static std::string enc(const RunSpec &r) {
     std::string s = "build=" + std::to_string(g_build) + " steps=";
-    for (size_t i = 0; i < r.steps.size(); i++) { if (i) s += ","; s += std::to_string(r.steps[i].mode) + ":" + std::to_string(r.steps[i].tld) + ":" + std::to_string(r.steps[i].addr); }
+    for (size_t i = 0; i < r.steps.size(); i++) { if (i) s += ","; s += std::to_string(r.steps[i].mode) + ":" + std::to_string(r.steps[i].tld) + ":" + std::to_string(r.steps[i].addr) + ":" + std::to_string(r.steps[i].allow); }
     s += " faults=";
     bool first = true;
     for (auto &f : r.faults) { if (!first) s += ","; first = false; s += std::to_string(f.first) + ":" + std::to_string(f.second.code) + ":" + std::to_string(f.second.buf); }
@@ -61,17 +65,17 @@ static std::string enc(const RunSpec &r) {
 static RunSpec dec(const std::string &c) {
     RunSpec r; Case cs = Case::parse(c); g_build = (int) cs.geti("build", 0); A = BUILD[g_build];
     auto split = [](const std::string &s, char d) { std::vector<std::string> v; std::string t; std::istringstream is(s); while (std::getline(is, t, d)) v.push_back(t); return v; };
-    for (auto &t : split(cs.raw("steps"), ',')) { auto p = split(t, ':'); if (p.size() == 3) r.steps.push_back({atoi(p[0].c_str()), atoi(p[1].c_str()), atoi(p[2].c_str())}); }
+    for (auto &t : split(cs.raw("steps"), ',')) { auto p = split(t, ':'); if (p.size() >= 3) { Step st; st.mode = atoi(p[0].c_str()); st.tld = atoi(p[1].c_str()); st.addr = atoi(p[2].c_str()); st.allow = p.size() > 3 ? atoi(p[3].c_str()) : -1; r.steps.push_back(st); } }
     for (auto &t : split(cs.raw("faults"), ',')) { auto p = split(t, ':'); if (p.size() == 3) r.faults[atol(p[0].c_str())] = {atoi(p[1].c_str()), atoi(p[2].c_str())}; }
     return r;
 }
 
 static std::map<int, v_outcome> g_fresh;
-static const v_outcome &fresh(int mode, int tld, int addr) {
-    int key = ((g_build * 4 + mode) * 2 + tld) * 64 + addr;
+static const v_outcome &fresh(int mode, int tld, int addr, int allow = -1) {
+    int key = (((g_build * 4 + mode) * 2 + tld) * 64 + addr) * 8 + (allow + 1);
     auto it = g_fresh.find(key); if (it != g_fresh.end()) return it->second;
     bool en = g_enabled; g_enabled = false;
-    Obj o(A); o.configure(mode, tld); v_outcome x = o.is_email(POOL[addr]);
+    Obj o(A); o.configure(mode, tld, allow < 0 ? INT_MIN : MASKS[allow]); v_outcome x = o.is_email(POOL[addr]);
     g_enabled = en;
     return g_fresh[key] = x;
 }
@@ -83,18 +87,20 @@ static bool eq(const v_outcome &x, const v_outcome &y) {
 static std::optional<Failure> run_spec(Run &R, const RunSpec &spec) {
     g_case = enc(spec); K k(A);
     int E_IDN = k("EEAV_IDN_ERROR");
-    for (auto &s : spec.steps) fresh(s.mode, s.tld, s.addr); // fill the reference cache outside the faulted run
+    for (auto &s : spec.steps) fresh(s.mode, s.tld, s.addr, s.allow); // fill the reference cache outside the faulted run
     g_sched = spec.faults; g_conv = 0; g_enabled = true;
     std::optional<Failure> fail;
     bool fault_seen = false, nontriv = false; int nfault = 0;
     {
         Obj o(A, 0xA5);
+        int defmask, dummy1, dummy2; A->obj_get(o.p, &dummy1, &dummy2, &defmask);
         int cur_mode = -1;
         for (size_t i = 0; i < spec.steps.size() && !fail; i++) {
             const Step &s = spec.steps[i];
             if (s.mode != cur_mode) { A->obj_set_mode(o.p, s.mode); if (A->obj_setup(o.p) != 0) { fail = Failure{"setup-failed", g_case, "eav_setup failed"}; break; } cur_mode = s.mode; }
             A->obj_set_tld(o.p, s.tld);
-            g_hit = false;
+            if (s.allow >= 0) A->obj_set_allow(o.p, MASKS[s.allow]); else A->obj_set_allow(o.p, defmask);
+            g_hit = false; long real_before = g_real_n;
             v_outcome x = o.is_email(POOL[s.addr]); R.eval();
             std::string where = "step " + std::to_string(i) + " (mode " + ref::MODE_NAME[s.mode] + ", tld_check=" + std::to_string(s.tld) + ", '" + show(POOL[s.addr]) + "'): " + outcome_str(x);
             if (g_hit) {
@@ -106,7 +112,13 @@ static std::optional<Failure> run_spec(Run &R, const RunSpec &spec) {
                 else if (x.is_domain || x.is_ipv4 || x.is_ipv6) fail = Failure{"fault-treated-as-domain", g_case, where + ": a flag is set after a converter failure"};
             } else {
                 if (fault_seen) nontriv = true;
-                const v_outcome &w = fresh(s.mode, s.tld, s.addr);
+                // a failure the real library reported by itself is judged like an injected one
+                if (g_real_n > real_before && g_real_rc != IDN2_OK) {
+                    const char *msg = idn2_strerror(g_real_rc); R.count("natural-idn-failure");
+                    if (x.ret != 0 || x.errcode != E_IDN || x.rc != -E_IDN || x.idn_rc != g_real_rc || x.errstr_null || strcmp(x.errstr, msg ? msg : "") != 0 || x.is_domain || x.is_ipv4 || x.is_ipv6)
+                        fail = Failure{"natural-failure-not-rejected-as-idn-error", g_case, where + ": the IDN library itself returned " + std::to_string(g_real_rc) + " ('" + (msg ? msg : "(null)") + "') for this domain"};
+                }
+                const v_outcome &w = fresh(s.mode, s.tld, s.addr, s.allow);
                 if (!eq(x, w)) fail = Failure{"failure-not-contained", g_case, where + " but a fresh object without faults gives " + outcome_str(w) + " (" + std::to_string(nfault) + " fault(s) earlier in the run)"};
             }
         }
@@ -123,9 +135,9 @@ static RunSpec template_run(int kind, int len) {
     RunSpec r;
     for (int i = 0; i < len; i++) {
         Step s;
-        if (kind == 0) s = {3, 1, i % 2 ? 3 : 0};                                 // only IDN addresses in mode 6531
-        else if (kind == 1) s = {(i % 3 == 2) ? (i % 4) % 3 : 3, i % 2, (i * 5) % NPOOL}; // mixed with ASCII-mode calls and all kinds of addresses
-        else s = {3, (i / 2) % 2, (i * 7 + 1) % NPOOL};
+        if (kind == 0) { s.mode = 3; s.tld = 1; s.addr = i % 2 ? 3 : 0; }                                 // only IDN addresses in mode 6531
+        else if (kind == 1) { s.mode = (i % 3 == 2) ? (i % 4) % 3 : 3; s.tld = i % 2; s.addr = (i * 5) % NPOOL; s.allow = (i % 6) - 1; } // mixed with ASCII-mode calls, all kinds of addresses, every mask
+        else { s.mode = 3; s.tld = (i / 2) % 2; s.addr = (i * 7 + 1) % NPOOL; s.allow = i % 4 == 3 ? 2 : -1; }
         r.steps.push_back(s);
     }
     return r;
@@ -133,7 +145,7 @@ static RunSpec template_run(int kind, int len) {
 // number of converter calls a run makes without faults
 static long conversions_of(const RunSpec &r) {
     long before = g_total_conv; bool en = g_enabled; g_enabled = false;
-    { Obj o(A); int cm = -1; for (auto &s : r.steps) { if (s.mode != cm) { A->obj_set_mode(o.p, s.mode); A->obj_setup(o.p); cm = s.mode; } A->obj_set_tld(o.p, s.tld); o.is_email(POOL[s.addr]); } }
+    { Obj o(A); int cm = -1; for (auto &s : r.steps) { if (s.mode != cm) { A->obj_set_mode(o.p, s.mode); A->obj_setup(o.p); cm = s.mode; } A->obj_set_tld(o.p, s.tld); if (s.allow >= 0) A->obj_set_allow(o.p, MASKS[s.allow]); o.is_email(POOL[s.addr]); } }
     g_enabled = en; return g_total_conv - before;
 }
 
@@ -158,7 +170,7 @@ static void stage_random(Run &R) {
     rc_run(R, "C19 random multi-fault schedules are contained", 1.5, [&](Src &s) -> std::optional<Failure> {
         g_build = (int) s.pick(2); A = BUILD[g_build];
         RunSpec r; uint32_t n = 1 + s.pick(50);
-        for (uint32_t i = 0; i < n; i++) r.steps.push_back({s.chance(1, 4) ? (int) s.pick(3) : 3, (int) s.pick(2), (int) s.pick(NPOOL)});
+        for (uint32_t i = 0; i < n; i++) { Step st; st.mode = s.chance(1, 4) ? (int) s.pick(3) : 3; st.tld = (int) s.pick(2); st.addr = (int) s.pick(NPOOL); st.allow = s.chance(1, 2) ? -1 : (int) s.pick(5); r.steps.push_back(st); }
         uint32_t nf = s.pick(6);
         for (uint32_t i = 0; i < nf; i++) r.faults[(long) s.pick(n)] = {CODES[s.pick(NCODES)], (int) s.pick(2)};
         R.sample("random schedule", enc(r), 3);
